@@ -41,7 +41,12 @@ def one(rec, plain, anns, source, mode, dmp, cell, case):
     rec.count("cases")
     rec.count(cell)
     try:
-        out = annotate_citations(plain, anns, source_text=source, unbalanced_tags=mode, use_dmp=dmp)
+        if case.get("annotator"):
+            # the documented customisation hook, here composing exactly what the default does
+            out = annotate_citations(plain, anns, source_text=source, unbalanced_tags=mode, use_dmp=dmp,
+                                     annotator=lambda before, text, after: before + text + after)
+        else:
+            out = annotate_citations(plain, anns, source_text=source, unbalanced_tags=mode, use_dmp=dmp)
     except Exception as e:
         # an escaping exception also means the document was not reproduced
         rec.violation("C09.raised." + type(e).__name__, case, observed=str(e)[:200])
@@ -106,7 +111,7 @@ def run_shard(spec, rec):
         for mode in MODES:
             for dmp in (True, False):
                 cell = f"cell:{mode}:{'dmp' if dmp else 'difflib'}:{kind}"
-                case = dict(plain=p, source=src, spans=sp, mode=mode, dmp=dmp)
+                case = dict(plain=p, source=src, spans=sp, mode=mode, dmp=dmp, annotator=(k % 5 == 0))
                 out = one(rec, p, anns, src, mode, dmp, cell, case)
                 emitted = emitted or (out is not None and "«" in out)
         if emitted:
